@@ -157,6 +157,9 @@ type WorkerOut struct {
 	Sites        map[string][3]int `json:"sites,omitempty"` // controlled seam sites: visits, >=2 entries, uncontrolled
 	UnctlSources []string          `json:"uncontrolled_sources,omitempty"`
 	Instrumented bool              `json:"instrumented"`
+	Rule         string            `json:"rule"`
+	Level        string            `json:"level"`
+	Assumptions  []string          `json:"assumptions"`
 	WallS        float64           `json:"wall_s"`
 	RaceReports  int               `json:"race_reports"`
 	HarnessRaces int               `json:"harness_race_reports"`
@@ -166,7 +169,8 @@ type WorkerOut struct {
 func RunBatch(driver, tier string, seed uint64, indices []int, build string, race *RaceWatcher, deadline time.Time) *WorkerOut {
 	t0 := time.Now()
 	out := &WorkerOut{Driver: driver, Tier: tier, Seed: seed, Build: build, Digests: map[int][2]string{},
-		Faults: map[string]int{}, Probes: map[string]int{}, Instrumented: simrt.Instrumented()}
+		Faults: map[string]int{}, Probes: map[string]int{}, Instrumented: simrt.Instrumented(),
+		Rule: Rules[driver], Level: Levels[driver], Assumptions: Assumptions[driver]}
 	dk := map[string]bool{}
 	oh := map[string]bool{}
 	sh := map[string]bool{}
